@@ -4,6 +4,7 @@ import (
 	"fmt"
 	"go/token"
 	"go/types"
+	"sort"
 	"strings"
 
 	"golang.org/x/tools/go/ssa"
@@ -28,6 +29,7 @@ func runC17(p *load.Program, r *oblig.Report) {
 	c17Shared(p, r)
 	c17RoundTrip(p, r)
 	c17SizeThreading(p, r)
+	c17StaleSize(p, r, "C17.R5 remaining size is threaded through error exits")
 	c17Deadline(p, r)
 }
 
@@ -260,6 +262,7 @@ func c17Shared(p *load.Program, r *oblig.Report) {
 	c := newC11(p, sub)
 	c.ruleR2()
 	c.ruleR4()
+	c.ruleR7()
 	c06Transport(p, sub)
 	for _, o := range sub.Obs {
 		o2 := *o
@@ -471,4 +474,137 @@ func c17Deadline(p *load.Program, r *oblig.Report) {
 		})
 		r.Check(ok, rule, "kafka."+name+" uses &c."+field, p.Pos(fn.Pos()), "c.do(&c."+field+", …)", "other deadline")
 	}
+}
+
+// staleSizeUses: the hand-written reader threads the number of bytes left in the response through every call
+// (`remain, err = readX(r, remain, …)`). A size value that was handed to one such call is stale afterwards: using it
+// again for a later call (instead of the remainder the first call returned) makes the running size wrong, and the
+// frame is no longer consumed exactly. Reports every pair (first use, later use) of the same size value, and the
+// number of threading calls examined.
+func staleSizeUses(p *load.Program) (bad []string, calls int) {
+	root := p.SSAPkg("")
+	isThreading := func(c *ssa.CallCommon) bool {
+		if c.IsInvoke() || len(c.Args) < 2 {
+			return false
+		}
+		sig := c.Signature()
+		if f := c.StaticCallee(); f != nil {
+			if f.Signature.Recv() != nil || (f.Pkg != root && !an.IsNew(f) && f.Parent() == nil) {
+				return false
+			}
+			sig = f.Signature
+		} else if _, isBuiltin := c.Value.(*ssa.Builtin); isBuiltin {
+			return false
+		}
+		// (a call through a function value — an element callback — threads the size the same way)
+		f := struct{ Signature *types.Signature }{sig}
+		ps := f.Signature.Params()
+		if ps.Len() < 2 || !isBufioReaderPtr(ps.At(0).Type()) {
+			return false
+		}
+		if b, ok := ps.At(1).Type().Underlying().(*types.Basic); !ok || b.Kind() != types.Int {
+			return false
+		}
+		res := f.Signature.Results()
+		if res.Len() < 2 || !isErrorType(res.At(res.Len()-1).Type()) {
+			return false
+		}
+		for i := 0; i < res.Len()-1; i++ {
+			if b, ok := res.At(i).Type().Underlying().(*types.Basic); ok && b.Kind() == types.Int {
+				return true
+			}
+		}
+		return false
+	}
+	for _, fn := range p.EveryModuleFunction() {
+		top := fn
+		for top.Parent() != nil {
+			top = top.Parent()
+		}
+		if top.Pkg != root {
+			continue
+		}
+		bySize := map[ssa.Value][]*ssa.Call{}
+		for _, b := range fn.Blocks {
+			for _, ins := range b.Instrs {
+				if c, ok := ins.(*ssa.Call); ok && isThreading(&c.Call) {
+					calls++
+					if _, isConst := c.Call.Args[1].(*ssa.Const); isConst {
+						continue
+					}
+					bySize[c.Call.Args[1]] = append(bySize[c.Call.Args[1]], c)
+				}
+			}
+		}
+		// a function that itself reports a remaining size must not report one that a call already consumed from
+		retIdx := -1
+		if res := fn.Signature.Results(); res.Len() >= 2 && isErrorType(res.At(res.Len()-1).Type()) && fn.Signature.Params().Len() >= 2 && isBufioReaderPtr(fn.Signature.Params().At(0).Type()) {
+			for i := 0; i < res.Len()-1; i++ {
+				if b, ok := res.At(i).Type().Underlying().(*types.Basic); ok && b.Kind() == types.Int {
+					retIdx = i
+				}
+			}
+		}
+		if retIdx >= 0 {
+			for _, b := range fn.Blocks {
+				ret, ok := b.Instrs[len(b.Instrs)-1].(*ssa.Return)
+				if !ok || len(ret.Results) <= retIdx {
+					continue
+				}
+				size := ret.Results[retIdx]
+				def, _ := size.(ssa.Instruction)
+				for _, c1 := range bySize[size] {
+					q := an.PathQuery{Fn: fn,
+						Stop:   func(i ssa.Instruction) bool { return def != nil && i == def },
+						Target: func(i ssa.Instruction) bool { return i == ssa.Instruction(ret) }}
+					if q.ReachableFrom(an.PointOf(c1)) != nil {
+						bad = append(bad, fmt.Sprintf("%s: %s is returned as the remaining size at %s after the call at %s already consumed from it", an.ShortFunc(fn), sizeName(size),
+							p.Pos(ret.Pos()), p.Pos(c1.Pos())))
+					}
+				}
+			}
+		}
+		for size, cs := range bySize {
+			def, _ := size.(ssa.Instruction)
+			for _, c1 := range cs {
+				for _, c2 := range cs {
+					q := an.PathQuery{Fn: fn,
+						Stop:   func(i ssa.Instruction) bool { return def != nil && i == def },
+						Target: func(i ssa.Instruction) bool { return i == ssa.Instruction(c2) }}
+					if q.ReachableFrom(an.PointOf(c1)) != nil {
+						bad = append(bad, fmt.Sprintf("%s: %s is given to %s at %s after %s at %s already consumed from it", an.ShortFunc(fn), sizeName(size),
+							calleeLabel(&c2.Call), p.Pos(c2.Pos()), calleeLabel(&c1.Call), p.Pos(c1.Pos())))
+					}
+				}
+			}
+		}
+	}
+	sort.Strings(bad)
+	return bad, calls
+}
+
+// c17StaleSize reports staleSizeUses under the given rule name (shared by C04 and C17).
+func c17StaleSize(p *load.Program, r *oblig.Report, rule string) {
+	bad, calls := staleSizeUses(p)
+	r.Check(len(bad) == 0, rule, "every call of the hand-written reader continues from the remainder the previous call returned", "-",
+		fmt.Sprintf("no size value is used by two successive reads (%d calls examined)", calls), strings.Join(bad, "; "))
+	r.RequireCount(rule+" (size-threading calls)", calls, 150)
+}
+
+func sizeName(v ssa.Value) string {
+	if prm, ok := v.(*ssa.Parameter); ok {
+		return "parameter " + prm.Name()
+	}
+	s := clean(an.Shape(v))
+	if len(s) > 80 {
+		s = s[:80] + "…"
+	}
+	return s
+}
+
+func calleeLabel(c *ssa.CallCommon) string {
+	if f := c.StaticCallee(); f != nil {
+		return an.RefFuncName(f)
+	}
+	return "a callback"
 }
